@@ -38,6 +38,18 @@ CASES = [
               'r/q/b/util.l': 'Helper(x) :- x in [100];\nPc(x) :- Helper(x);\n'},
        main='import p.a.util.Pa;\nimport p.b.util.Pb;\nimport q.b.util.Pc;\nQ(x) :- Pa(x) | Pb(x) | Pc(x);\n', roots='r',
        expect={'Q': [(1,), (10,), (100,)]}),
+  # same base name, and one of the two imports the other (each keeps its own private Scale)
+  dict(name='same_base_name_one_imports_other',
+       files={'r/common/util.l': 'Scale(x) = x * 2;\nBase(x) :- x in [1, 2];\n',
+              'r/geo/util.l': 'import common.util.Base;\nScale(x) = x * 100;\nGeo(Scale(x)) :- Base(x);\n'},
+       main='import geo.util.Geo;\nimport common.util.Scale;\nQ(x) :- Geo(x);\nQ2(Scale(1));\n', roots='r',
+       expect={'Q': [(100,), (200,)], 'Q2': [(2,)]}),
+  dict(name='same_base_name_chain_then_more',
+       files={'r/a/util.l': 'import b.util.Pb;\nHelper(x) :- x in [1];\nPa(x) :- Helper(x) | Pb(x);\n',
+              'r/b/util.l': 'import c.other.Pc;\nHelper(x) :- x in [10];\nPb(x) :- Helper(x) | Pc(x);\n',
+              'r/c/other.l': 'Helper(x) :- x in [100];\nPc(x) :- Helper(x);\n'},
+       main='import a.util.Pa;\nimport c.other.Pc;\nQ(x) :- Pa(x);\nQ2(x) :- Pc(x);\n', roots='r',
+       expect={'Q': [(1,), (10,), (100,)], 'Q2': [(100,)]}),
   dict(name='alias',
        files={'r/m/lib.l': 'Twice(x) = x * 2;\nSquare(x) = x * x;\n'},
        main='import m.lib.Twice as Dbl;\nimport m.lib.Square;\nTwice(x) = x + 1000;\nQ(Dbl(3), Square(3), Twice(3));\n',
